@@ -188,7 +188,7 @@ var props = map[string]*propDef{
 			{Name: "proto.VerifC19InferTotal", Quick: map[string]int{"maxlen": 4}, Thorough: map[string]int{"maxlen": 6}},
 			{Name: "proto.VerifC19Templates"},
 			{Name: "proto.VerifC19RelationVocab", Quick: map[string]int{"maxparam": 1}, Thorough: map[string]int{"maxparam": 1}},
-			{Name: "proto.VerifC19RelationVocab", Quick: map[string]int{"maxparam": 2, "samebase": 1}, Thorough: map[string]int{"maxparam": 4, "samebase": 1}},
+			{Name: "proto.VerifC19RelationVocab", Quick: map[string]int{"maxparam": 2, "samebase": 1}, Thorough: map[string]int{"maxparam": 2, "samebase": 1}},
 		},
 	},
 	"C18": {
@@ -300,6 +300,18 @@ var props = map[string]*propDef{
 		Harnesses: []harnessDef{
 			{Name: "ch.VerifC10Cancel", Repeat: 200, Cfg: noReturn, Optional: []string{"completed-stream"}, Quick: map[string]int{"maxgate": 10}, Thorough: map[string]int{"maxgate": 24}},
 			{Name: "ch.VerifC10Handshake", Repeat: 200, Cfg: noReturn, Optional: []string{"client-returned"}, Quick: map[string]int{"maxgate": 8}, Thorough: map[string]int{"maxgate": 16}},
+		},
+	},
+	"C12": {
+		ID: "C12", Level: "model_checking", Rule: ruleDefault,
+		Assumptions: append([]string{
+			"data races are decided by a happens-before (vector clock) analysis over each explored path: go statements, channel operations, close, select, Mutex/RWMutex, Once, WaitGroup, Pool, sync/atomic and context cancellation are the synchronisation edges; two conflicting accesses by interpreted non-harness code that these edges do not order are a race in every interleaving with the same synchronisation order. Where the model is coarser than the Go memory model it adds edges (it can miss a race, not invent one)",
+			"accesses made inside native models (bytealg, errors, fmt, zap, otel except the span context, time) are not tracked; every reported race is replayed natively under the Go race detector and only reported if it confirms; every witness replay also runs under -race and a native report on an engine-clean path makes the check inconclusive",
+			"the harness connection is goroutine-safe like a net.Conn (separate read/write locks, atomics for what the server has seen)",
+		}, baseAssumptions...),
+		Harnesses: []harnessDef{
+			{Name: "ch.VerifC12Query", Race: true, Repeat: 50, Cfg: noReturn, Witness: 4},
+			{Name: "chpool.VerifC12Pool", Race: true, Repeat: 50, Cfg: func(c *sym.Config) { noReturn(c); c.AllowLeak = true }, Witness: 3},
 		},
 	},
 	"C11": {
